@@ -228,7 +228,8 @@ def alru_cache(maxsize=128, key_fn=None):
     def decorator(fn):
         cache = LRUCache(maxsize)
         argspec = inspect.getfullargspec(get_original_fn(fn))
-        arg_names = argspec.args[1:] + argspec.kwonlyargs  # remove self
+        # args passed to cache_key still contain argument 0 (self for methods), so keep its name
+        arg_names = argspec.args + argspec.kwonlyargs
         async_fun = fn.asynq
         kwargs_defaults = get_kwargs_defaults(argspec)
 
